@@ -29,6 +29,11 @@ def check_prog(ctx, r, prog):
             ctx.violate("schemas-panic", f"{pn}: response_schemas_impl of part {part['id']} panicked: {o['panic'][:100]}", {"prog": pn, "obs": o})
             continue
         table = o["res"]["ok"]
+        # generic query types carry a `__phantom` entry for their helper variant; it is not a sendable name
+        # (serde(skip); C01 probes that it is refused), and the statement only rules out other *sendable* names
+        if "__phantom" in table:
+            table = {k: v for k, v in table.items() if k != "__phantom"}
+            ctx.count("phantom_entries_ignored")
         qs = list(handlers(prog, kind="query", part=part["id"]))
         exp_names = sorted(T.wire_name(h["name"]) for h in qs)
         detail = {"prog": pn, "part": part["id"], "table_keys": sorted(table), "queries": exp_names}
@@ -59,7 +64,7 @@ def check_prog(ctx, r, prog):
     if "panic" in o:
         ctx.violate("schemas-panic", f"{pn}: contract-level response_schemas_impl panicked: {o['panic'][:100]}", {"prog": pn, "obs": o})
     else:
-        wt = o["res"]["ok"]
+        wt = {k: v for k, v in o["res"]["ok"].items() if k != "__phantom"}
         if sorted(wt) != sorted(union):
             ctx.violate("contract-keys", f"{pn}: contract-level table keys {sorted(wt)} != union of parts {sorted(union)}",
                         {"prog": pn, "table_keys": sorted(wt), "union": sorted(union)})
@@ -115,4 +120,7 @@ def run(ctx):
         for p in progs:
             check_prog(ctx, r, p)
     fam.each_bin(per_bin)
+    gen = ctx.family("generic")
+    gen.each_bin(per_bin)
+    ctx.cov["generic_programs"] = len(gen.progs)
     ctx.cov["programs"] = len(fam.progs)
